@@ -176,8 +176,8 @@ class Index:
         if name in BUILTIN_EXC:
             return BUILTIN_EXC[name]
         c = self.classes.get(name)
-        if c is not None and c.bases:
-            return c.bases[0]
+        if c is not None:
+            return c.bases[0] if c.bases else None
         return "Exception"
 
     def exc_is_subclass(self, name, base):
